@@ -439,9 +439,10 @@ func cmdCheck(args []string, writeLedger bool) {
 			if i := strings.LastIndex(fnKey, "/"); i >= 0 {
 				fnKey = fnKey[:i]
 			}
-			if rest := strings.TrimPrefix(le.Name, fnKey+"/"); strings.HasPrefix(rest, "call-cover.") {
-				// a vacuity guard of a call site that no longer exists guards nothing: not a violation as long as the
-				// function itself is still generated without errors (its other obligations are all still demanded)
+			if rest := strings.TrimPrefix(le.Name, fnKey+"/"); strings.HasPrefix(rest, "call-cover.") || (strings.HasPrefix(rest, "call.") && strings.Contains(rest, ".pre.")) {
+				// a vacuity guard, or the precondition, of a call site that no longer exists has nothing left to guard: not a
+				// violation as long as the function itself is still generated without errors (its other obligations,
+				// postconditions, call counts and callreq clauses included, are all still demanded)
 				alive := false
 				for _, fr := range frs {
 					if strings.HasSuffix(fnKey, "."+fr.Key) && len(fr.Errs) == 0 && len(fr.Obls) > 0 {
